@@ -53,12 +53,7 @@ def build(case, variant):
     sect = case.get("sect", "both")
     ir = {"name": "f", "doc": "", "params": params if sect != "ret" else OrderedDict(),
           "returns": OrderedDict((("return_type", {"typ": "int", "doc": "the result"}),)) if sect != "params" else None}
-    if sect == "ret":
-        # written by hand: the real Google / NumPy emitters glue a return-only section to its header (a listed C01 finding)
-        section = {"rest": ":return: the result\n:rtype: ```int```", "google": "Returns:\n  int:\n   the result",
-                   "numpydoc": "Returns\n-------\nint\n    the result"}[case["from"]]
-    else:
-        section = cdd.docstring.emit.docstring(copy.deepcopy(ir), docstring_format=case["from"], indent_level=0).strip("\n")
+    section = cdd.docstring.emit.docstring(copy.deepcopy(ir), docstring_format=case["from"], indent_level=0).strip("\n")
     header = lines_of(case["h"], 0)
     footer = lines_of(case["f"], 3)
     body = header + [""] + section.split("\n") + footer
